@@ -532,6 +532,8 @@ class Interp:
 
     def getattr_(self, obj, name):
         obj = self.resolve(obj)
+        if isinstance(obj, SNoneT) and not hasattr(None, name):
+            self.raise_(AttributeError, f"'NoneType' object has no attribute '{name}'")   # exact CPython behaviour
         if isinstance(obj, SObj):
             if name in obj.fields:
                 return obj.fields[name]
@@ -663,6 +665,8 @@ class Interp:
                 return
             obj.fields[name] = value
             return
+        if isinstance(obj, SNoneT):
+            self.raise_(AttributeError, f"'NoneType' object has no attribute '{name}'")   # exact CPython behaviour
         raise Unsupported(f"attribute store on {obj!r}")
 
     def instantiate(self, cls, args, kwargs):
